@@ -62,6 +62,7 @@ def differential(case, pid, stages=plans.STAGES, with_compute=True):
             ref, _, _, _, _ = plans.execute(expr)
         except Exception as e:
             return {"nontrivial": False, "classes": ["unoptimized_fails:" + type(e).__name__], "counters": {"unoptimized_fails": 1}}
+        alt = alternative_result(prog, flags, dvals)
         fired = False
         for stage in stages:
             try:
@@ -77,6 +78,9 @@ def differential(case, pid, stages=plans.STAGES, with_compute=True):
                 failures.append(Failure("stage-exec-raises", f"executing the {stage} plan raised {type(e).__name__}: {e}", stage=stage, exc=e).record())
                 break
             d = equiv(res, ref, order=fl.ordered, index=fl.indexed, dtypes="exact")
+            if d is not None and alt is not None and equiv(res, alt, order=fl.ordered, index=fl.indexed, dtypes="exact") is None:
+                d = None
+                classes.append("accepted_global_head_tail")
             if d is not None:
                 failures.append(Failure("stage-mismatch", f"{stage} plan result differs from unoptimized: {d}", stage=stage, extra={"bucket_hint": stage}).record())
                 break
@@ -91,6 +95,8 @@ def differential(case, pid, stages=plans.STAGES, with_compute=True):
                 failures.append(Failure("compute-raises", f"compute() raised {type(e).__name__}: {e}", stage="compute", exc=e).record())
             else:
                 d = equiv(res, ref, order=fl.ordered, index=fl.indexed, dtypes="exact")
+                if d is not None and alt is not None and equiv(res, alt, order=fl.ordered, index=fl.indexed, dtypes="exact") is None:
+                    d = None
                 if d is not None:
                     failures.append(Failure("compute-mismatch", f"compute() differs from unoptimized: {d}", stage="compute", extra={"bucket_hint": "compute"}).record())
     classes += ["op:" + s["op"] for s in prog["steps"]]
@@ -110,6 +116,24 @@ def differential(case, pid, stages=plans.STAGES, with_compute=True):
         "sample": interp.describe(prog),
         "evaluations": 1,
     }
+
+
+def alternative_result(prog, flags, dvals):
+    """head(n, npartitions=k)/tail(n) of a frame whose partitioning is chosen by a
+    sort/shuffle algorithm: the documented per-partition result and the exact
+    global first/last n rows both satisfy the query (DESIGN C11).  Returns the
+    global alternative, or None when the output is uniquely defined."""
+    out_id = prog["out"][0]
+    if flags[out_id].defined or not prog["steps"]:
+        return None
+    last = prog["steps"][-1]
+    if last["id"] != out_id or last["op"] != "head":
+        return None
+    try:
+        inp = plans.execute(dvals[last["in"][0]].expr)[0]
+    except Exception:
+        return None
+    return getattr(inp, last["args"]["how"])(last["args"]["n"])
 
 
 def shrink_candidates(case):
